@@ -1,15 +1,28 @@
 """C11 — belief containers keep their declared shape consistent with their storage (DESIGN.md §5 C11).
 
 Cases are operation sequences on one GaussianMixture / Gaussian / ParticleSet object:
-  case <id> gm|gauss|pset c=<components> l=<linear> ci=<circular> q=<0|1> ctor=full|two|default
+  case <id> gm|gauss|pset c=<components> l=<linear> ci=<circular> q=<0|1> ctor=full|noq|two|default
   word ops <token> ...
   mat <qname> r c v...   int <qname>.r r   int <qname>.c c        (noise covariances)
-Tokens: F<base> fill all storage with distinct integers base, base+1, ... (through the public Ref accessors);
-C copy-construct, M move-construct (no move constructor exists: copies), S copy-assign into a default-constructed
-object; R<c>,<l>,<ci> resize (Gaussian: R<l>,<ci>); A<qname> augmentWithNoise; particle sets only:
-P<c>,<l>,<ci>,<q>,<base> `+=` a fresh filled set, Q... the same with operator+, D `+=` a copy of itself,
-E `x + x`.  Both sides print, after the constructor (step 0) and after each operation k, "<k>.<field>".
+ctor: full = (c, l, ci, q); noq = (c, l, ci) relying on the default use_quaternion; two = (c, dim) / Gaussian(l);
+default = ().  Tokens: F<base> fill all storage with distinct integers base, base+1, ... (through the public Ref
+accessors); C copy-construct, M move-construct (no move constructor exists: copies), S copy-assign into a
+default-constructed object; R<c>,<l>,<ci> resize (Gaussian: R<l>,<ci>); r<c>,<l> (Gaussian: r<l>) resize relying on
+the default dim_circular = 0; B<c>,<l>,<ci> (Gaussian only) the virtual GaussianMixture::resize through a
+GaussianMixture&; A<qname> augmentWithNoise; W augmentWithNoise(own covariance()) (aliased argument); particle sets
+only: P<c>,<l>,<ci>,<q>,<base> `+=` a fresh filled set, Q... the same with operator+, D `+=` a copy of itself,
+E `x + x`, Z `x += x` (aliased operand).  Both sides print, after the constructor (step 0) and after each operation
+k, "<k>.<field>".
+
+"Outside" operations (the model's definedness predicate is false: square augmentation of a 0-component object,
+`+=` of a mismatched or aliased operand, augmentation with the own covariance() when storage is reallocated) end a
+sequence.  The model prints "undefined_at k".  The harness executes them only in a build that turns the undefined
+behaviour into a failure (Eigen assertion -> exit 42, ASan -> exit 43) and prints "skipped k" otherwise; the check
+reports a failure of the library only where the model says the operation is DEFINED; on an operation the model marks
+undefined (outside the property's quantifier) nothing is reported whether the library fails (counted as
+outside_failed_as_predicted) or accepts it (outside_accepted): the comparison of that sequence stops before that step.
 """
+import itertools
 import numpy as np
 from vlib import caseio
 
@@ -18,7 +31,7 @@ COQ_TARGETS = ["C11_Extract.vo", "C11_Regress.vo"]
 EXTRACTED = "C11_model"
 DRIVER = "drv_C11.ml"
 HARNESS = "h_C11.cpp"
-VARIANTS = {"quick": ["assert"], "thorough": ["assert", "asan"]}
+VARIANTS = {"quick": ["assert", "O1"], "thorough": ["assert", "O1", "asan"]}
 AXIOMS_ALLOWED = []
 REQUIRED_THEOREMS = ["C11_ctor_consistent", "C11_ctor_uniform_weights", "C11_inv", "C11_reachable",
                      "C11_gauss_reachable", "C11_pset_inv", "C11_pset_reachable", "C11_copy_is_identity", "C11_invariant_executable",
@@ -26,44 +39,62 @@ REQUIRED_THEOREMS = ["C11_ctor_consistent", "C11_ctor_uniform_weights", "C11_inv
                      "C11_storage_is_concatenation_of_blocks", "C11_components_view",
                      "C11_resize_components_preserves", "C11_pset_resize_components_preserves",
                      "C11_augment_content", "C11_augment_nonsquare", "C11_augment_twice_content",
-                     "C11_pset_augment_content", "C11_concat_content", "C11_plus_is_concat", "C11_concat_defined_iff"]
+                     "C11_pset_augment_content", "C11_concat_content", "C11_plus_is_concat", "C11_concat_defined_iff",
+                     "C11_concat_self_defined_iff", "C11_resize_components_preserves_with_noise_refuted",
+                     "C11_gauss_base_resize_refuted"]
 TIMEOUT = 2400
 
-RULE = ("operation sequences from one seeded stream over gm / gauss / pset objects: constructor layouts components 1..4 x "
-        "linear 0..4 x circular 0..2 x Euler/quaternion (all three constructor overloads), then 1..12 (quick) / 1..60 (thorough) "
-        "operations out of fill, copy/move/assign, resize (same layout, other component count, other split of the same size, "
-        "other size, quaternion split change), augmentWithNoise (0x0, 1..3, non-square; repeated), += / + (fresh operand of the same "
-        "or an equal-size layout, self copy); thorough adds every sequence of length <= 3 over the small layouts; "
-        "non-trivial = at least two operations other than fill; distinct by (kind, constructor layout, operation-type word)")
+RULE = ("operation sequences from one seeded stream over gm / gauss / pset objects: constructor layouts components 0..4 x "
+        "linear 0..4 x circular 0..2 x Euler/quaternion (all four constructor overloads, also the defaulted arguments), then 1..12 "
+        "(quick) / 1..60 (thorough) operations out of fill, copy/move/assign, resize (same layout, other component count, other split of "
+        "the same size, other size, quaternion split change, defaulted dim_circular, through GaussianMixture& for a Gaussian), "
+        "augmentWithNoise (0x0, 1..3, non-square; repeated; with the own covariance()), += / + (fresh operand of the same or an "
+        "equal-size layout, self copy, aliased self), and 'outside' endings (0-component augmentation, mismatched / aliased operand) "
+        "which are outside the property (nothing is reported on them, both outcomes are counted); plus every sequence of length <= 2 (quick) / <= 3 (thorough) over boundary "
+        "layouts; non-trivial = at least two operations other than fill; distinct by (kind, constructor layout, operation-type word)")
 TRUSTED_BASE = ["Coq 8.16.1 kernel (coqc); no axioms (Print Assumptions: closed under the global context)",
                 "extraction (ExtrOcamlBasic only) and ocaml/float_ops.ml, ocaml/drv_C11.ml, ocaml/caseio.ml",
                 "the model of the Eigen 3.4 primitives in coq/C11_Model.v (resize keeps an equal-sized buffer and zero-fills "
                 "otherwise, conservativeResize(NoChange, n) leaves new cells uninitialised, conservativeResize(n, NoChange) and "
                 "conservativeResizeLike pad from a zero matrix, block assignment, column swap) — compared cell by cell with Eigen on every case",
+                "the definedness predicates of the model (gop_defined / pop_defined): checked against the library's Eigen assertions / ASan "
+                "on the generated 'outside' cases only",
                 "cpp/h_C11.cpp harness (subclasses exposing the protected matrices); comparison is exact, cells the model marks "
                 "uninitialised (NaN) are not compared",
                 "correspondence is sampled: agreement is established on the generated sequences only"]
-ASSUMPTIONS = ["augmentWithNoise is modelled for components >= 1 (the C++ loop bound components-1 is unsigned; premise of the theorems)",
-               "concatenation is modelled for operands with equal dim and dim_covariance (otherwise Eigen asserts / undefined; premise)",
-               "a Gaussian is only resized through Gaussian::resize (not through a GaussianMixture& to another component count)"]
+ASSUMPTIONS = ["histories are quantified through gm_run / gauss_run / ps_run: an operation is executed only if it is defined in the C++ "
+               "(square augmentation needs components >= 1; += / + need a distinct operand of equal dim and dim_covariance; the aliased calls "
+               "x += x and x.augmentWithNoise(x.covariance()) are defined only when nothing is reallocated)",
+               "a Gaussian keeps ONE component only while it is not resized to another count through a GaussianMixture& "
+               "(C11_gauss_base_resize_refuted); it stays a consistent mixture regardless",
+               "'changing only the number of components' excludes an augmented mixture resized to its noise-free layout "
+               "(C11_resize_components_preserves_with_noise_refuted; counted by the oracle)"]
 LEVEL_TEXT = ("Proof: for the list model of GaussianMixture / Gaussian / ParticleSet (descriptors + column-major storage with explicit "
               "shapes, Eigen resize / conservativeResize / block / column-swap semantics), the invariant Consistent (dim = dl + dc*dcc + dn, "
               "dcc = 4|1, dcov = dl + dc*(3|1) + dn, mean dim x components, covariance dcov x dcov*components, weight components, state dim x "
               "components, all well-formed) holds after the constructors and is preserved by every operation, hence along all operation "
-              "sequences of any length and all layouts; accessors address exactly component i's block; a change of the component count "
-              "preserves the survivors; augmentation gives [m;0] and blockdiag(P,Q) for every component, also repeatedly; concatenation "
-              "gives both operands in order; new mixtures have uniform weights.")
-LEVEL_NOTE = ("Tied to the code by exact comparison of every descriptor, storage dimension, storage cell and accessor view after every "
-              "operation of generated sequences (assert build; asan in the thorough tier). Premises: components >= 1 for augmentation, equal "
-              "dim/dim_covariance for concatenation, no non-empty noise augmentation of a ParticleSet (refuted otherwise: known finding).")
+              "sequences of any length and all layouts on which the C++ is defined; accessors address exactly component i's block; a change "
+              "of the component count preserves the survivors; augmentation gives [m;0] and blockdiag(P,Q) for every component (particle "
+              "states [x;0]), also repeatedly; concatenation gives both operands in order; new mixtures have uniform weights.")
+LEVEL_NOTE = ("Tied to the code by exact comparison of every descriptor, storage dimension, storage cell and the views of every accessor "
+              "overload (block/element, const/non-const, whole-matrix, defaulted arguments) after every operation of generated sequences, on "
+              "the assert build and on the NDEBUG (O1) build of the pinned tests (asan added in the thorough tier). ParticleSet noise "
+              "augmentation is inside the theorems (28573a1). Outside the theorems and outside the report (the library may fail or accept; both are counted, the sequence stops there): "
+              "augmentation of a 0-component object, += of a mismatched operand, x += x, x.augmentWithNoise(x.covariance()). The copy theorem "
+              "and the accessor cell equations are definitional (record eta / unfolding); their content is on the correspondence side.")
 
 LEN = {"quick": (1, 12), "thorough": (1, 60)}
-COUNTS = {"quick": 420, "thorough": 6000}
+COUNTS = {"quick": 360, "thorough": 5000}
 MAXC = 9
 MAXDIM = 16
+COUNTERS = {}
 
 
-# ------------------------------------------------------------------ shape tracker (used only to pick valid operations)
+def count(key, n=1):
+    COUNTERS[key] = COUNTERS.get(key, 0) + n
+
+
+# ------------------------------------------------------------------ shape tracker (used only to pick operations)
 class Sh:
     def __init__(s, kind, c, l, ci, q):
         s.kind, s.c, s.l, s.ci, s.q, s.n = kind, c, l, ci, q, 0
@@ -89,6 +120,14 @@ def qmat(case, name, r, c, base):
         case.mat_shape(name, r, c, [base + k for k in range(r * c)])
 
 
+def rtok(kind, c, l, ci, rng=None, force_default=None):
+    """Resize token; with dim_circular = 0 half of the time through the overload that defaults it."""
+    dflt = (ci == 0) and (force_default if force_default is not None else (rng is not None and rng.random() < 0.5))
+    if kind == "gauss":
+        return "r%d" % l if dflt else "R%d,%d" % (l, ci)
+    return "r%d,%d" % (c, l) if dflt else "R%d,%d,%d" % (c, l, ci)
+
+
 def pick_resize(rng, sh):
     """(c, l, ci) aimed at the branches of resize."""
     k = rng.random()
@@ -96,7 +135,7 @@ def pick_resize(rng, sh):
     if k < 0.12:
         return sh.c, sh.l, sh.ci                                  # early return
     if k < 0.45:
-        return rng.choice(cs), sh.l, sh.ci                        # only the component count
+        return rng.choice(cs), sh.l, sh.ci                        # only the component count (also of an augmented mixture)
     if k < 0.60 and not sh.q and sh.l + sh.ci > 0:                # same size, other split (Euler)
         tot = sh.l + sh.ci
         ci = rng.randint(0, min(2, tot))
@@ -109,46 +148,75 @@ def pick_resize(rng, sh):
     if k < 0.80 and sh.n > 0:                                     # augmented: noise reinterpreted as linear
         return rng.choice(cs + [sh.c]), sh.l + sh.n, sh.ci
     if k < 0.86:                                                  # same total number of cells, other shape
-        return sh.dim if 1 <= sh.dim <= 4 else rng.randint(1, 4), sh.c if sh.c <= 4 else 1, 0
+        return sh.dim if 1 <= sh.dim <= 4 else rng.randint(1, 4), sh.c if 1 <= sh.c <= 4 else 1, 0
+    if k < 0.89:
+        return 0, rng.randint(0, 3), rng.randint(0, 1)            # no components at all
     return rng.randint(1, 4), rng.randint(0, 4), rng.randint(0, 2)
+
+
+def finish_case(case, toks, outside=None):
+    case.word("ops", toks)
+    case.meta["len"] = len(toks)
+    case.meta["word"] = "".join(t[0] for t in toks)
+    if outside:
+        case.meta["outside"] = outside
+    return case
 
 
 def random_case(rng, cid, tier, kind):
     lo, hi = LEN[tier]
-    ctor = rng.choice(["full"] * 6 + ["two", "default"])
+    ctor = rng.choice(["full"] * 5 + ["noq", "noq", "two", "default"])
     if ctor == "default":
         c, l, ci, q = 1, 1, 0, 0
     elif ctor == "two":
         c, l, ci, q = rng.randint(1, 4), rng.randint(0, 4), 0, 0
     else:
         c, l, ci, q = rng.randint(1, 4), rng.randint(0, 4), rng.randint(0, 2), rng.randint(0, 1)
+        if rng.random() < 0.06 and kind != "gauss":
+            c = 0
+        if ctor == "noq":
+            q = 0
     if kind == "gauss":
         c = 1
     sh = Sh(kind, c, l, ci, q)
     case = caseio.Case(cid, kind, {"c": c, "l": l, "ci": ci, "q": q, "ctor": ctor})
     n = rng.randint(lo, hi) if rng.random() < 0.7 else rng.randint(lo, min(hi, 6))
     toks, nq, base = [], 0, rng.randint(1, 50)
+    end_outside = rng.random() < (0.07 if tier == "quick" else 0.02)
     if rng.random() < 0.9:
         toks.append("F%d" % base); base += 4000
-    while len(toks) < n:
+    tries = 0
+    while len(toks) < n and tries < 400:
+        tries += 1
         k = rng.random()
         if k < 0.14:
             toks.append("F%d" % base); base += 4000
         elif k < 0.26:
             toks.append(rng.choice("CMS"))
-        elif k < 0.56:
+        elif k < 0.54:
             c2, l2, ci2 = pick_resize(rng, sh)
             if kind == "gauss":
                 c2 = 1
             if l2 + ci2 * sh.dcc > MAXDIM:
                 continue
-            toks.append("R%d,%d" % (l2, ci2) if kind == "gauss" else "R%d,%d,%d" % (c2, l2, ci2))
+            toks.append(rtok(kind, c2, l2, ci2, rng))
             sh.resize(c2, l2, ci2)
+        elif k < 0.57 and kind == "gauss":
+            c2 = rng.choice([1, 2, 3])                           # through a GaussianMixture&
+            l2, ci2 = (sh.l, sh.ci) if rng.random() < 0.5 else (rng.randint(0, 3), rng.randint(0, 1))
+            toks.append("B%d,%d,%d" % (c2, l2, ci2)); sh.resize(c2, l2, ci2)
+        elif k < 0.60:
+            # augmentation with the own covariance(): defined when it is not square (refused) or empty (nothing added)
+            if sh.c == 0 or (sh.c == 1 and sh.dcov > 0):
+                continue
+            toks.append("W")
         elif k < 0.78 or kind != "pset":
             r = rng.choice([0, 1, 1, 2, 2, 3, 3])
             cols = r if rng.random() < 0.88 else r + rng.choice([1, 2])
             if sh.dim + r > MAXDIM:
                 continue
+            if sh.c == 0 and cols == r:
+                continue                                          # outside: only as an ending
             name = "q%d" % nq; nq += 1
             qmat(case, name, r, cols, 9000 + 100 * nq)
             toks.append("A" + name)
@@ -160,6 +228,8 @@ def random_case(rng, cid, tier, kind):
                 if 2 * sh.c > MAXC:
                     continue
                 toks.append(rng.choice("DE")); sh.c *= 2
+            elif kk < 0.24 and sh.c == 0:
+                toks.append("Z")                                  # x += x of an empty set is defined
             else:
                 c2 = rng.randint(1, 3)
                 if sh.c + c2 > MAXC:
@@ -175,74 +245,122 @@ def random_case(rng, cid, tier, kind):
                         q2 = 0
                 toks.append("%s%d,%d,%d,%d,%d" % (rng.choice("PPQ"), c2, l2, ci2, q2, base)); base += 4000
                 sh.c += c2
-    case.word("ops", toks)
-    case.meta["len"] = len(toks)
-    case.meta["word"] = "".join(t[0] for t in toks)
-    return case
-
-
-def exhaustive(cid0):
-    """Every sequence of length <= 3 (after an initial fill) over the small layouts."""
-    import itertools
-    cases, cid = [], cid0
-    starts = [(c, l, ci, q) for c in (1, 2) for (l, ci) in ((1, 0), (0, 1), (2, 1)) for q in (0, 1)]
-    lay = [(1, 0), (0, 1), (2, 1)]
-    for kind in ("gm", "gauss", "pset"):
-        for (c, l, ci, q) in starts:
-            if kind == "gauss" and c != 1:
-                continue
-            alpha = ["C"] + ["A%d" % r for r in (0, 1, 2)]
-            if kind == "gauss":
-                alpha += ["R%d,%d" % x for x in lay]
+    outside = None
+    if end_outside:
+        opts = []
+        if sh.c == 0 and sh.dcov + 1 <= MAXDIM:
+            opts.append("aug0")
+        if sh.c == 1 and sh.dcov > 0 and sh.dim + sh.dcov <= 2 * MAXDIM:
+            opts.append("selfaug")
+        if kind == "pset" and sh.c > 0:
+            opts += ["selfconcat", "mismatch"]
+        if opts:
+            outside = rng.choice(opts)
+            if outside == "aug0":
+                name = "q%d" % nq; nq += 1
+                qmat(case, name, 1, 1, 9900); toks.append("A" + name)
+            elif outside == "selfaug":
+                toks.append("W")
+            elif outside == "selfconcat":
+                toks.append("Z")
             else:
-                alpha += ["R%d,%d,%d" % ((cc,) + x) for cc in (1, 3) for x in lay] + ["R3,6,0"]   # (2,1,quat) -> (6,0): same dim
-            if kind == "pset":
-                alpha += ["P", "D"]
+                toks.append("%s%d,%d,%d,%d,%d" % (rng.choice("PQ"), rng.randint(1, 2), sh.l + sh.n + 1, sh.ci, sh.q, base))
+    return finish_case(case, toks, outside)
+
+
+def small_q(case, toks, nq, r, cols):
+    name = "q%d" % nq
+    qmat(case, name, r, cols, 9000 + 100 * (nq + 1))
+    toks.append("A" + name)
+
+
+def exhaustive(tier):
+    """Every sequence (after an initial fill) of length <= 3 over small layouts (thorough); of length 1 over components
+    1..4 x boundary layouts and of length 2 over a few of them, with the full alphabet (quick, and thorough as well)."""
+    cases = []
+    lay_small = [(1, 0), (0, 1), (2, 1)]
+    lay_bound = [(0, 0), (1, 0), (0, 1), (4, 2)]
+
+    def alphabet(kind, full):
+        al = ["C"] + (["M", "S", "W"] if full else [])
+        al += [("A", r, r) for r in ((0, 1, 3) if full else (0, 1, 2))] + ([("A", 2, 3)] if full else [])
+        if kind == "gauss":
+            al += [("R", 1) + x for x in (lay_small + [(4, 2)] if full else lay_small + [(6, 0)])]
+            al += [("B", 3, 1, 0), ("B", 1, 0, 1)] if full else []
+        elif full:
+            al += [("R", cc) + x for cc in (2, 4) for x in lay_small + [(4, 2)]]
+        else:
+            al += [("R", cc) + x for cc in (1, 3) for x in ((1, 0), (2, 1))] + [("R", 3, 6, 0), ("R", 1, 0, 1)]
+        if kind == "pset":
+            al += ["P", "D"] + (["Q", "E", "Palt"] if full else [])
+        return al
+
+    def build(kind, start, seq, tag):
+        c, l, ci, q = start
+        case = caseio.Case("x", kind, {"c": c, "l": l, "ci": ci, "q": q, "ctor": "full", "exh": tag})
+        sh = Sh(kind, 1 if kind == "gauss" else c, l, ci, q)
+        toks, nq, base = ["F7"], 0, 4000
+        for a in seq:
+            if isinstance(a, tuple) and a[0] == "A":
+                small_q(case, toks, nq, a[1], a[2]); nq += 1
+                if a[1] == a[2]:
+                    sh.n += a[1]
+            elif isinstance(a, tuple) and a[0] == "R":
+                toks.append(rtok(kind, a[1], a[2], a[3], force_default=(len(toks) % 2 == 0)))
+                sh.resize(1 if kind == "gauss" else a[1], a[2], a[3])
+            elif isinstance(a, tuple) and a[0] == "B":
+                toks.append("B%d,%d,%d" % a[1:]); sh.resize(*a[1:])
+            elif a in ("P", "Q"):
+                toks.append("%s2,%d,%d,%d,%d" % (a, sh.l + sh.n, sh.ci, sh.q, base)); base += 4000; sh.c += 2
+            elif a == "Palt":
+                if sh.q:
+                    return None
+                tot = sh.l + sh.ci + sh.n
+                toks.append("P1,%d,%d,0,%d" % (tot - min(1, tot), min(1, tot), base)); base += 4000; sh.c += 1
+            elif a in ("D", "E"):
+                toks.append(a); sh.c *= 2
+            elif a == "W":
+                if sh.c == 1 and sh.dcov > 0:
+                    return None                                   # outside: covered by the corpus and the random endings
+                toks.append("W")
+            else:
+                toks.append(a)
+            if sh.c > 12 or sh.dim > MAXDIM + 4:
+                return None
+        return finish_case(case, toks)
+
+    def add(kind, starts, n, full, tag):
+        al = alphabet(kind, full)
+        for start in starts:
+            if kind == "gauss" and start[0] != 1:
+                continue
+            for seq in itertools.product(al, repeat=n):
+                cs = build(kind, start, seq, tag)
+                if cs is not None:
+                    cases.append(cs)
+
+    for kind in ("gm", "gauss", "pset"):
+        b1 = [(c, l, ci, q) for c in (1, 2, 3, 4) for (l, ci) in lay_bound for q in (0, 1)]
+        add(kind, b1, 1, True, "b1")
+        b2 = [(1, 1, 0, 0), (2, 0, 1, 1), (3, 4, 2, 0), (4, 0, 0, 0), (2, 4, 2, 1)]
+        add(kind, b2, 2, True, "b2")
+        if tier == "thorough":
+            s3 = [(c, l, ci, q) for c in (1, 2) for (l, ci) in ((1, 0), (2, 1)) for q in (0, 1)]
             for n in (1, 2, 3):
-                for seq in itertools.product(alpha, repeat=n):
-                    case = caseio.Case(cid, kind, {"c": c, "l": l, "ci": ci, "q": q, "ctor": "full", "exh": 1})
-                    sh = Sh(kind, 1 if kind == "gauss" else c, l, ci, q)
-                    toks, ok, nq, base = ["F7"], True, 0, 4000
-                    for a in seq:
-                        if a[0] == "A":
-                            r = int(a[1:]); name = "q%d" % nq; nq += 1
-                            qmat(case, name, r, r, 9000 + 100 * nq)
-                            toks.append("A" + name); sh.n += r
-                        elif a[0] == "R":
-                            v = [int(x) for x in a[1:].split(",")]
-                            toks.append(a)
-                            if kind == "gauss":
-                                sh.resize(1, v[0], v[1])
-                            else:
-                                sh.resize(*v)
-                        elif a == "P":
-                            toks.append("P2,%d,%d,%d,%d" % (sh.l + sh.n, sh.ci, sh.q, base)); base += 4000; sh.c += 2
-                        elif a == "D":
-                            toks.append("D"); sh.c *= 2
-                        else:
-                            toks.append(a)
-                        if sh.c > 12 or sh.dim > MAXDIM:
-                            ok = False
-                    if not ok:
-                        continue
-                    case.word("ops", toks)
-                    case.meta["len"] = len(toks)
-                    case.meta["word"] = "".join(t[0] for t in toks)
-                    cases.append(case); cid += 1
+                add(kind, s3, n, False, "s%d" % n)
+    for i, cs in enumerate(cases):
+        cs.id = "x%d" % i
     return cases
 
 
 def corpus():
-    """Minimal witnesses of the repaired defects and hand-picked boundary sequences; they run first, so that a
-    reintroduced defect is reported with the shortest replay."""
-    def mkc(cid, kind, c, l, ci, q, toks, qs=(), ctor="full"):
+    """Minimal witnesses of the repaired defects, of the refuted statements and of the outside operations, and
+    hand-picked boundary sequences; they run first, so that a reintroduced defect is reported with the shortest replay."""
+    def mkc(cid, kind, c, l, ci, q, toks, qs=(), ctor="full", outside=None):
         case = caseio.Case("c%d" % cid, kind, {"c": c, "l": l, "ci": ci, "q": q, "ctor": ctor, "corpus": 1})
         for i, (r, cl) in enumerate(qs):
             qmat(case, "q%d" % i, r, cl, 9100 + 100 * i)
-        case.word("ops", toks)
-        case.meta["len"] = len(toks)
-        case.meta["word"] = "".join(t[0] for t in toks)
-        return case
+        return finish_case(case, toks, outside)
     L = [
         ("pset", 3, 2, 0, 0, ["P2,2,0,0,100"], ()),                      # 7c71916: += must update components
         ("pset", 3, 2, 1, 0, ["R3,2,0"], ()),                            # eeaa10f: assignment in the early-return test
@@ -252,34 +370,53 @@ def corpus():
         ("pset", 2, 2, 0, 0, ["F1", "Aq0", "R3,3,0"], ((1, 1),)),        # 28573a1: particle states not augmented
         ("gm", 3, 2, 0, 0, ["F1", "Aq0"], ((1, 1),)),                    # three components: relocation order matters
         ("gm", 2, 2, 0, 0, ["F1", "R3,2,0"], ()),                        # only the component count: survivors kept
+        ("gm", 2, 2, 0, 0, ["F1", "Aq0", "R3,2,0"], ((1, 1),)),          # ... of an augmented mixture: 3x2 -> 2x3, buffer reinterpreted
         ("gm", 3, 2, 1, 1, ["F1", "R2,2,1"], ()),                        # shrinking, quaternion layout
-        ("gm", 2, 3, 0, 0, ["F1", "R3,2,0"], ()),                        # other shape, same number of cells: buffer kept
+        ("gm", 2, 3, 0, 0, ["F1", "r3,2"], ()),                          # other shape, same number of cells: buffer kept; default dc
         ("gm", 2, 3, 0, 0, ["F1", "R2,2,1"], ()),                        # same size, other split, same count: full branch, buffer kept
         ("gm", 3, 0, 0, 0, ["Aq0", "F1", "Aq1"], ((0, 0), (2, 2))),      # empty layout, empty noise
         ("gm", 2, 1, 1, 1, ["F1", "Aq0"], ((2, 3),)),                    # non-square noise covariance refused
+        ("gm", 2, 2, 1, 0, ["F1", "W", "r3,3"], (), "noq"),              # own covariance (2 comps: non-square, refused); defaults
         ("gm", 1, 1, 0, 0, ["F1", "C", "M", "S"], (), "default"),
-        ("gauss", 1, 1, 0, 0, ["F1", "Aq0", "R2,1", "S"], ((1, 1),), "default"),
+        ("gauss", 1, 1, 0, 0, ["F1", "Aq0", "R2,1", "S", "r3"], ((1, 1),), "default"),
         ("gauss", 1, 2, 1, 1, ["F1", "Aq0", "Aq1", "C"], ((1, 1), (2, 2))),
+        ("gauss", 1, 2, 1, 0, ["F1", "B3,2,1", "F9", "R2,1"], (), "noq"),  # Gaussian resized through GaussianMixture&: 3 components
+        ("gauss", 1, 2, 0, 0, ["F1", "B3,2,0", "Aq0"], ((1, 1),), "two"),
         ("pset", 2, 1, 1, 1, ["F1", "D", "E", "R3,1,1"], ()),
-        ("pset", 2, 2, 0, 0, ["F1", "Aq0", "P1,3,0,0,500", "Q2,2,1,0,900"], ((1, 1),)),
+        ("pset", 2, 2, 0, 0, ["F1", "Aq0", "P1,3,0,0,500", "Q2,2,1,0,900"], ((1, 1),), "noq"),
         ("pset", 1, 4, 0, 1, ["F1", "R2,0,1", "F9", "R1,0,1"], ()),      # quaternion split change: state kept, Gaussian part reset
+        ("pset", 0, 2, 0, 0, ["Z", "F1", "P2,2,0,0,50", "r0,2", "Z"], ()),  # empty set: x += x is defined
+        ("gm", 0, 2, 1, 1, ["F1", "C", "Aq0", "R2,2,1"], ((2, 3),)),     # no components: non-square augmentation refused
+        # outside the premises: library must fail where the model says undefined
+        ("gm", 0, 2, 0, 0, ["Aq0"], ((1, 1),), "full", "aug0"),          # unsigned components - 1
+        ("pset", 0, 1, 1, 0, ["F1", "Aq0"], ((2, 2),), "full", "aug0"),
+        ("pset", 2, 2, 0, 0, ["F1", "Z"], (), "full", "selfconcat"),     # x += x
+        ("pset", 2, 2, 0, 0, ["F1", "P1,3,0,0,50"], (), "full", "mismatch"),
+        ("pset", 2, 2, 1, 1, ["F1", "Q2,6,0,1,50"], (), "full", "mismatch"),   # same dim, other dim_covariance
+        ("gm", 1, 2, 0, 0, ["F1", "W"], (), "full", "selfaug"),          # dangling Ref (ASan only)
+        ("gauss", 1, 1, 1, 1, ["F1", "W"], (), "full", "selfaug"),
+        ("pset", 1, 2, 0, 0, ["F1", "W"], (), "full", "selfaug"),
     ]
     out = []
     for i, t in enumerate(L):
-        out.append(mkc(i, *t[:6], qs=t[6], ctor=t[7] if len(t) > 7 else "full"))
+        out.append(mkc(i, *t[:6], qs=t[6], ctor=t[7] if len(t) > 7 else "full", outside=t[8] if len(t) > 8 else None))
     return out
 
 
 def generate(rng, tier):
+    COUNTERS.clear()
     cases = []
     for k in range(COUNTS[tier]):
         kind = rng.choice(["gm"] * 4 + ["gauss"] * 2 + ["pset"] * 5)
         cases.append(random_case(rng, k, tier, kind))
-    if tier == "thorough":
-        cases += exhaustive(len(cases))
-    # shortest sequences first: the first case violating a clause is the one written as replay
+    cases += exhaustive(tier)
+    # shortest sequences first: the first case violating a clause is the one written as replay; the cases that end
+    # with an operation on which the library is expected to die come last (each one restarts the harness)
     cases.sort(key=lambda c: int(c.meta.get("len", 0)))
-    return corpus() + cases
+    cp = corpus()
+    inside = [c for c in cp + cases if not c.meta.get("outside")]
+    outside = [c for c in cp + cases if c.meta.get("outside")]
+    return inside + outside
 
 
 def nontrivial(c):
@@ -290,20 +427,24 @@ def nontrivial(c):
 
 
 def histogram(cases):
-    kinds, ops, lens = {}, {}, {}
+    kinds, ops, lens, ctors, outs = {}, {}, {}, {}, {}
     for c in cases:
         kinds[c.kind] = kinds.get(c.kind, 0) + 1
+        ctors[c.meta.get("ctor", "full")] = ctors.get(c.meta.get("ctor", "full"), 0) + 1
+        if c.meta.get("outside"):
+            outs[c.meta["outside"]] = outs.get(c.meta["outside"], 0) + 1
         for x in c.meta.get("word", ""):
             ops[x] = ops.get(x, 0) + 1
         b = min(int(c.meta.get("len", 0)) // 10 * 10, 60)
         lens["%d-%d" % (b, b + 9)] = lens.get("%d-%d" % (b, b + 9), 0) + 1
-    return {"kind": kinds, "operation": ops, "length": lens}
+    return {"kind": kinds, "operation": ops, "length": lens, "constructor": ctors, "outside_endings_generated": outs,
+            "oracle_counters_summed_over_variants": dict(COUNTERS)}
 
 
 # ------------------------------------------------------------------ comparison
 INTS = ["components", "quat", "dcc", "dim", "dl", "dc", "dn", "dcov", "ret"]
 MATS = {"gm": ["mean", "cov", "w", "amean", "acov", "aw", "emean", "ecov"],
-        "gauss": ["mean", "cov", "w", "amean", "acov", "aw", "emean", "ecov", "gmean", "gcov"],
+        "gauss": ["mean", "cov", "w", "amean", "acov", "aw", "emean", "ecov", "gmean", "gcov", "gemean", "gecov"],
         "pset": ["mean", "cov", "w", "amean", "acov", "aw", "emean", "ecov", "state", "astate", "estate"]}
 
 
@@ -322,27 +463,42 @@ def same(a, b, mask_nan_of_b=False):
     return bool(np.all(eq))
 
 
+def last_step(c, impl, model):
+    """Last step both sides executed, and the bookkeeping of an 'outside' ending."""
+    last = steps(c)
+    und = model.get("undefined_at") if model is not None else None
+    if und is not None:
+        last = min(last, und - 1)
+    for key in ("stopped", "skipped"):
+        v = impl.get(key)
+        if v is not None:
+            last = min(last, v if key == "stopped" else v - 1)
+    return last, und
+
+
 def compare(c, impl, model):
     d = []
     stopped = impl.get("stopped")
-    for k in range(steps(c) + 1):
-        if stopped is not None and k > stopped:
-            break
+    last, und = last_step(c, impl, model)
+    skipped = impl.get("skipped")
+    if und is not None and skipped is not None and skipped != und:
+        d.append("the model says operation %d is undefined, the harness skipped operation %s" % (und, skipped))
+    if und is None and skipped is not None:
+        d.append("the harness treated operation %s as outside the premises, the model says it is defined" % skipped)
+    for k in range(last + 1):
         if k > 0 and model.get("%d.defined" % k) != 1:
-            d.append("%d.defined: the operation is outside the premises under which the model is faithful" % k)
+            d.append("%d.defined: model=%s" % (k, model.get("%d.defined" % k)))
         for f in INTS + ["model_consistent"]:
             name = "%d.%s" % (k, f)
             if f == "model_consistent":
-                want = 1
                 if c.kind == "pset":
                     name = "%d.model_ps_consistent" % k
-                if model.get(name) != want:
+                if model.get(name) != 1:
                     d.append("%s: the model's own invariant evaluates to %s" % (name, model.get(name)))
                 continue
             if impl.get(name) != model.get(name):
                 d.append("%s: impl=%s model=%s" % (name, impl.get(name), model.get(name)))
-        fs = list(MATS[c.kind])
-        for f in fs:
+        for f in MATS[c.kind]:
             name = "%d.%s" % (k, f)
             if not impl.has(name):
                 if stopped == k and f not in ("mean", "cov", "w", "state"):
@@ -354,9 +510,10 @@ def compare(c, impl, model):
             if a.shape != b.shape:
                 d.append("%s: shape impl=%s model=%s" % (name, a.shape, b.shape))
             elif not same(a, b, mask_nan_of_b=True):
-                bad = np.argwhere(~((a == b) | np.isnan(b)))
+                with np.errstate(invalid="ignore"):
+                    bad = np.argwhere(~((a == b) | np.isnan(b)))
                 i, j = bad[0]
-                d.append("%s: %d cell(s) differ, first (%d,%d): impl=%r model=%r" % (name, len(bad), i, j, a[i, j], b[i, j]))
+                d.append("%s: %d cell(s) differ, first (%d,%d): impl=%r model=%r" % (name, len(bad), i, j, float(a[i, j]), float(b[i, j])))
         if c.kind == "gauss":
             name = "%d.gweight" % k
             a, b = impl.get(name), model.get(name)
@@ -369,10 +526,34 @@ def compare(c, impl, model):
     return d
 
 
+# ------------------------------------------------------------------ outside operations: the library must fail too
+ENTRY = {"A": "GaussianMixture::augmentWithNoise", "W": "GaussianMixture::augmentWithNoise", "P": "ParticleSet::operator+=",
+         "Z": "ParticleSet::operator+=", "Q": "operator+(ParticleSet,ParticleSet)"}
+
+
+def on_crash(c, info, model):
+    """An Eigen assertion / sanitizer report is the expected outcome exactly when the model says the operation is undefined."""
+    und = model.get("undefined_at") if model is not None else None
+    kind = info.get("kind")
+    if und is None:
+        return None                      # the model says every operation is defined: a failure of the library is a violation
+    tok = c.get("ops")[und - 1]
+    se = info.get("stderr", "")
+    if kind in ("asan", "ubsan"):
+        # sanitizer reports are long and the runner keeps their tail only: the harness's announcement is cut off
+        pass
+    elif "BFL_VERIF_EXPECT outside step=%d " % und not in se:
+        return None                      # it died before reaching the operation the model marks undefined
+    count("outside_failed_as_predicted")
+    count("outside_failed_as_predicted:%s(%s)" % (c.meta.get("outside", tok[0]), kind))
+    return []
+
+
 # ------------------------------------------------------------------ the property evaluated on the implementation
 def optype(tok):
-    return {"F": "fill", "C": "copy", "M": "move", "S": "assign", "R": "resize", "A": "augment",
-            "P": "concat", "Q": "plus", "D": "concat-self", "E": "plus-self"}[tok[0]]
+    return {"F": "fill", "C": "copy", "M": "move", "S": "assign", "R": "resize", "r": "resize-default-dc", "B": "resize-via-base",
+            "A": "augment", "W": "augment-self", "P": "concat", "Q": "plus", "D": "concat-self-copy", "E": "plus-self",
+            "Z": "concat-aliased"}[tok[0]]
 
 
 def fresh_rhs(tok):
@@ -391,6 +572,15 @@ def fresh_rhs(tok):
     return {"components": c2, "dim": dim, "dcov": dcv, "mean": mean, "cov": cov, "w": w, "state": st}
 
 
+def resize_request(kind, tok):
+    rq = [int(x) for x in tok[1:].split(",")]
+    if tok[0] == "r":
+        rq = rq + [0]
+    if kind == "gauss" and tok[0] != "B":
+        rq = [1] + rq
+    return rq
+
+
 def oracle(c, impl, model):
     v = []
     kind = c.kind
@@ -401,14 +591,28 @@ def oracle(c, impl, model):
         op = "ctor" if k == 0 else optype(ops[k - 1])
         v.append(("C11:%s:%s:%s" % (kind, op, clause), "step %d: %s" % (k, detail)))
 
-    stopped = impl.get("stopped")
-    last = steps(c) if stopped is None else stopped
+    last, und = last_step(c, impl, model)
+    skipped = impl.get("skipped")
+    if skipped is not None:
+        if und == skipped:
+            count("outside_skipped_in_a_build_that_cannot_detect_it:%s" % c.meta.get("outside", "?"))
+        else:
+            add(skipped, "harness-outside-but-model-defined", "the harness refused an operation the model defines (model undefined_at=%s)" % und)
+    if und is not None and skipped is None and G(und, "survived") is not None:
+        # outside the property's quantifier: a library that accepts the operation is as fine as one that fails; only counted
+        count("outside_accepted")
+        count("outside_accepted:%s" % c.meta.get("outside", ops[und - 1][0]))
+    via_base = False
     for k in range(last + 1):
         if G(k, "components") is None:
             v.append(("C11:%s:no-output" % kind, "step %d missing" % k)); break
         tok = ops[k - 1] if k > 0 else None
         n, quat, dcc, dim, dl, dc, dn, dcv = [G(k, f) for f in ("components", "quat", "dcc", "dim", "dl", "dc", "dn", "dcov")]
         mean, cov, w = G(k, "mean"), G(k, "cov"), G(k, "w")
+        if tok and tok[0] == "B":
+            via_base = True
+        elif tok and tok[0] in "Rr":
+            via_base = False
         # --- Consistent
         if dcc != (4 if quat else 1):
             add(k, "dcc", "dim_circular_component=%d with use_quaternion=%d" % (dcc, quat))
@@ -426,7 +630,10 @@ def oracle(c, impl, model):
         if kind == "pset" and st.shape != (dim, n):
             add(k, "state-shape", "state_ is %dx%d, descriptors say %dx%d" % (st.shape + (dim, n)))
         if kind == "gauss" and n != 1:
-            add(k, "gaussian-components", "a Gaussian reports %d components" % n)
+            if via_base:
+                count("gaussian-with-%s-components-after-resize-through-GaussianMixture&" % ("0" if n == 0 else "several"))
+            else:
+                add(k, "gaussian-components", "a Gaussian reports %d components" % n)
         # --- accessors address exactly component i's block
         if G(k, "acc_oob") == 1 or (kind == "pset" and G(k, "state_oob") == 1):
             add(k, "state-accessor-out-of-range" if G(k, "acc_oob") == 0 else "accessor-out-of-range",
@@ -438,31 +645,42 @@ def oracle(c, impl, model):
             add(k, "accessor-covariance", "covariance(i) / covariance(i,j,k) do not return block i of covariance_")
         if not same(G(k, "aw"), w[:n]):
             add(k, "accessor-weight", "weight(i) does not return entry i of weight_")
-        if G(k, "const_same") != 1:
-            add(k, "accessor-const", "const and non-const accessors address different cells")
+        for fld in ("acc_bad", "sacc_bad", "gacc_bad"):
+            names = G(k, fld)
+            if names is not None and names != ["-"]:
+                add(k, "accessor-overload:" + "+".join(names), "these accessor overloads do not address the storage cells of their non-const / block counterpart")
         if kind == "pset" and (not same(G(k, "astate"), st[:, :n]) or not same(G(k, "estate"), st[:dim, :n])):
             add(k, "state-accessor", "state(i) / state(i,j) do not return column i of state_")
-        if kind == "gauss" and n == 1:
-            if not same(G(k, "gmean"), mean[:, :1]) or not same(G(k, "gcov"), cov) or not same([[G(k, "gweight")]], w[:1]):
-                add(k, "accessor-gaussian", "Gaussian::mean()/covariance()/weight() do not return the single component")
+        if kind == "gauss":
+            gm_, gc_, ge_, gv_ = G(k, "gmean"), G(k, "gcov"), G(k, "gemean"), G(k, "gecov")
+            ok = (gm_ is not None and n >= 1 and same(gm_, mean[:, :1]) and same(ge_, mean[:dim, :1]) and same([[G(k, "gweight")]], w[:1])
+                  and same(gv_, cov[:dcv, :dcv]))
+            # Gaussian::covariance() is the whole storage: component 0's block for the one-component object it is meant to be
+            ok = ok and same(gc_, cov)
+            if n >= 1 and not ok:
+                add(k, "accessor-gaussian", "Gaussian::mean()/mean(i)/covariance()/covariance(i,j)/weight() do not return component 0 / the covariance storage")
         # --- content clauses
         if k == 0:
             if n > 0 and not same(w, np.full((n, 1), 1.0 / n)):
                 add(k, "uniform-weights", "a new mixture has weights %s" % w.ravel()[:4])
+            if np.any(mean != 0) or np.any(cov != 0) or (st is not None and np.any(st != 0)):
+                add(k, "new-storage-not-zero", "freshly constructed storage is not zero")
+            rq = (int(c.meta["c"]) if kind != "gauss" else 1, int(c.meta["l"]), int(c.meta["ci"]), int(c.meta["q"]))
+            if (n, dl, dc, quat, dn) != rq + (0,):
+                add(k, "constructor-arguments", "constructed (%s) reports components=%d dl=%d dc=%d quat=%d dn=%d" % (rq, n, dl, dc, quat, dn))
             continue
         pn, pdim, pdl, pdc, pdn, pdcv = [G(k - 1, f) for f in ("components", "dim", "dl", "dc", "dn", "dcov")]
         pmean, pcov, pw = G(k - 1, "mean"), G(k - 1, "cov"), G(k - 1, "w")
         pst = G(k - 1, "state") if kind == "pset" else None
         t = tok[0]
         desc_same = all(G(k, f) == G(k - 1, f) for f in ("quat", "dcc", "dim", "dl", "dc", "dn", "dcov"))
-        if t in "CMS" or (t == "A" and G(k, "ret") == 0) or t == "F":
+        if t in "CMS" or (t in "AW" and G(k, "ret") == 0) or t == "F":
             if not desc_same or n != pn:
                 add(k, "descriptors-changed", "descriptors changed by %s" % optype(tok))
             if t != "F" and not (same(mean, pmean) and same(cov, pcov) and same(w, pw) and (pst is None or same(st, pst))):
                 add(k, "content-changed", "storage changed by %s" % optype(tok))
-        if t == "R":
-            rq = [int(x) for x in tok[1:].split(",")]
-            rc, rl, rci = (1, rq[0], rq[1]) if kind == "gauss" else rq
+        if t in "RrB":
+            rc, rl, rci = resize_request(kind, tok)
             if (n, dl, dc) != (rc, rl, rci):
                 add(k, "requested-layout", "resize(%d;%d,%d) left components=%d dl=%d dc=%d" % (rc, rl, rci, n, dl, dc))
             if (rl, rci) == (pdl, pdc) and rc == pn:
@@ -476,12 +694,23 @@ def oracle(c, impl, model):
                     add(k, "survivors-not-preserved", "changing only the component count %d -> %d lost data of a surviving component" % (pn, n))
                 if pst is not None and not (st.shape[0] == pst.shape[0] and st.shape[1] >= m and same(st[:, :m], pst[:, :m])):
                     add(k, "state-survivors-not-preserved", "changing only the component count %d -> %d lost particle states" % (pn, n))
-        if t == "A" and G(k, "ret") == 1:
-            name = tok[1:]
-            r = c.get(name + ".r")
-            Q = c.get(name) if r > 0 else np.zeros((0, 0))
-            if c.get(name + ".c") != r:
-                add(k, "augment-nonsquare-accepted", "a %dx%d noise covariance was accepted" % (r, c.get(name + ".c")))
+                count("resize:only-the-component-count:survivors-checked")
+            elif (rl, rci) == (pdl, pdc):
+                # an augmented mixture resized to its noise-free layout with another count: dim and dim_covariance shrink as
+                # well, nothing is preserved (C11_resize_components_preserves_with_noise_refuted): counted, not a violation
+                count("resize:augmented-mixture-to-noise-free-layout-with-other-count(outside-the-clause)")
+                m = min(n, pn)
+                if m > 0 and mean.shape == (pdim - pdn, n) and np.array_equal(mean[:, :m], pmean[:pdim - pdn, :m]):
+                    count("resize:augmented...:non-noise-part-of-the-survivors-happens-to-be-kept")
+        if t in "AW" and G(k, "ret") == 1:
+            if t == "A":
+                name = tok[1:]
+                r, qc = c.get(name + ".r"), c.get(name + ".c")
+                Q = c.get(name) if r > 0 and qc > 0 else np.zeros((r, qc))
+            else:
+                Q = pcov; r, qc = pcov.shape
+            if qc != r:
+                add(k, "augment-nonsquare-accepted", "a %dx%d noise covariance was accepted" % (r, qc))
                 continue
             if (n, dl, dc, dn, dim, dcv) != (pn, pdl, pdc, pdn + r, pdim + r, pdcv + r):
                 add(k, "augment-descriptors", "after augmenting with %dx%d: components=%d dl=%d dc=%d dn=%d dim=%d dcov=%d (before: %d %d %d %d %d %d)"
@@ -504,7 +733,11 @@ def oracle(c, impl, model):
                 add(k, "augment-weights", "weights changed")
             if pst is not None and st.shape == (pdim + r, pn) and not (same(st[:pdim, :], pst) and same(st[pdim:, :], np.zeros((r, pn)))):
                 add(k, "state-augment", "particle states are not [x; 0]")
-        if t in "PQDE":
+        if t in "AW" and G(k, "ret") == 0:
+            shp = (c.get(tok[1:] + ".r"), c.get(tok[1:] + ".c")) if t == "A" else pcov.shape
+            if shp[0] == shp[1]:
+                add(k, "augment-square-refused", "a square %dx%d noise covariance was refused" % shp)
+        if t in "PQDEZ":
             if t in "PQ":
                 R = fresh_rhs(tok)
             else:
@@ -526,10 +759,10 @@ def oracle(c, impl, model):
     # report the first failing step only (later steps inherit the damage), at most two clauses of it
     seen, out, step0 = set(), [], None
     for s, dt in v:
-        st = dt.split(":")[0]
+        st_ = dt.split(":")[0]
         if step0 is None:
-            step0 = st
-        if st != step0 or len(out) >= 2:
+            step0 = st_
+        if st_ != step0 or len(out) >= 2:
             break
         if s not in seen:
             seen.add(s); out.append((s, dt))
